@@ -140,4 +140,68 @@ theorem rewriter_cmd_toml_agree (E : Env) (table : TableI) (old new : Bytes) (mx
   simp only [Crng.Tie.CodeCfg.initResult, tryEach, Crng.Tie.CodeCfg.rwOne, hr]
   cases re <;> simp [Res.pure, emit]
 
+/-! ### readRouteOpts: the filter options of `addRoute … <key> [option…]` and `modRoute` -/
+set_option maxRecDepth 8000 in
+theorem body3_eq (st : T3) : readRouteOpts_body1 st = tupleStep3 st := by
+  rcases st with ⟨err, notPrefix, notRegex, notSub, prefix_, regex, s, sub⟩
+  simp only [readRouteOpts_body1, tupleStep3, step3]
+  generalize s.Next = p
+  obtain ⟨t, s1⟩ := p
+  generalize s1.Next = q
+  obtain ⟨v, s2⟩ := q
+  obtain ⟨tok, tv⟩ := t
+  obtain ⟨vtok, vv⟩ := v
+  simp only []
+  cases tok <;> simp [mSet, M6.toT3, M6.result, toki_EOF, toki_Error, badMsg] <;> (by_cases hv : vtok = Token.word <;> simp [hv])
+
+theorem step3_toT3 (m : M6) (e : Err) (s : Scanner) :
+    tupleStep3 (m.toT3 e s) = stepMap (fun (x : M6 × Err × Scanner) => x.1.toT3 x.2.1 x.2.2) (step3 m e s) := rfl
+
+theorem loop3_eq : ∀ (n : Nat) (toks : List TokV) (m : M6) (fuel : Nat),
+    toks.length ≤ n → toks.length + 1 ≤ fuel →
+    whileP fuel readRouteOpts_cond1 tupleStep3 (m.toT3 none ⟨toks⟩) = Out.ret (routeOpts toks m) := by
+  intro n
+  induction n using Nat.strongRecOn with
+  | _ n ih =>
+    intro toks m fuel hn hf
+    obtain ⟨f1, rfl⟩ : ∃ f1, fuel = f1 + 1 := ⟨fuel - 1, by omega⟩
+    have hc : readRouteOpts_cond1 (m.toT3 none ⟨toks⟩) = true := rfl
+    simp only [whileP, hc, if_true, step3_toT3]
+    generalize hr : routeOpts toks m = res
+    unfold routeOpts at hr
+    subst hr
+    cases toks with
+    | nil => simp [step3, Scanner.Next]
+    | cons t r =>
+      by_cases hend : t.Token = Token.EOF ∨ t.Token = Token.sep
+      · simp [step3, Scanner.Next, hend]
+      · by_cases herr : t.Token = Token.Error
+        · simp [step3, Scanner.Next, hend, herr]
+        · cases hk : mSet t.Token with
+          | none => simp [step3, Scanner.Next, hend, herr, hk]
+          | some f =>
+            cases r with
+            | nil => simp [step3, Scanner.Next, hend, herr, hk]
+            | cons v r2 =>
+              by_cases hv : v.Token = Token.word
+              · have := ih (n - 2) (by simp at hn; omega) r2 (f v.Value m) f1 (by simp at hn; omega) (by simp at hf ⊢; omega)
+                simp [step3, Scanner.Next, hend, herr, hk, hv, this]
+              · simp [step3, Scanner.Next, hend, herr, hk, hv]
+
+theorem whileP_congr_body {σ ρ : Type} (c : σ → Bool) (b b' : σ → Step σ ρ) (hb : ∀ s, b s = b' s) :
+    ∀ (n : Nat) (s : σ), whileP n c b s = whileP n c b' s := by
+  have : b = b' := funext hb
+  subst this; intro n s; rfl
+
+/-- **readRouteOpts (regenerated) = `routeOpts`**, for every token list -/
+theorem readRouteOpts_eq (toks : List TokV) : readRouteOpts ⟨toks⟩ = routeOpts toks {} := by
+  unfold readRouteOpts
+  simp only []
+  rw [whileP_congr_body _ _ _ body3_eq]
+  have := loop3_eq toks.length toks {} (toks.length + 2) (Nat.le_refl _) (by omega)
+  simp only [M6.toT3] at this
+  have hd : ((default : Err), (default : Bytes), (default : Bytes), (default : Bytes), (default : Bytes), (default : Bytes), (⟨toks⟩ : Scanner), (default : Bytes)) =
+      (none, [], [], [], [], [], ⟨toks⟩, []) := rfl
+  rw [hd, this]
+
 end Crng.Tie.CodeAgree
